@@ -5,20 +5,23 @@
 // for all inputs.  See notes/design-go2coq.md.
 //
 // The translator FAILS CLOSED: any construct outside the supported subset makes it emit
-//   Definition go_<pkg>_<func>_UNSUPPORTED : unit := tt.   (* reason *)
+//
+//	Definition go_<pkg>_<func>_UNSUPPORTED : unit := tt.   (* reason *)
+//
 // instead of the function, so the equality lemma no longer compiles.  It never guesses.
 //
 // Scheme (details in the design note):
-//   string,[]byte -> bytes   byte -> N   int,time.Duration,time.Time -> Z   bool -> bool
-//   []string -> list bytes   several results -> a tuple   every function returns [res T].
-//   Index/slice expressions are the PARTIAL operations of Lib/GoBytes.v, bound in the res
-//   monad in Go's evaluation order; && and || keep their short-circuit.
-//   Statements are translated in let/continuation style; control-flow merges re-bind the
-//   tuple of variables assigned in the branches; loops are local fixpoints (structural for
-//   range loops, explicit fuel with Panic on exhaustion for condition loops).
-//   Fields of the receiver that a method reads become parameters, fields it writes are
-//   returned; sends on conn.out are collected in a list (the method's result); time.Now()
-//   calls become clock-reading parameters in order of evaluation.
+//
+//	string,[]byte -> bytes   byte -> N   int,time.Duration,time.Time -> Z   bool -> bool
+//	[]string -> list bytes   several results -> a tuple   every function returns [res T].
+//	Index/slice expressions are the PARTIAL operations of Lib/GoBytes.v, bound in the res
+//	monad in Go's evaluation order; && and || keep their short-circuit.
+//	Statements are translated in let/continuation style; control-flow merges re-bind the
+//	tuple of variables assigned in the branches; loops are local fixpoints (structural for
+//	range loops, explicit fuel with Panic on exhaustion for condition loops).
+//	Fields of the receiver that a method reads become parameters, fields it writes are
+//	returned; sends on conn.out are collected in a list (the method's result); time.Now()
+//	calls become clock-reading parameters in order of evaluation.
 package main
 
 import (
@@ -44,6 +47,7 @@ var go2coqTargets = []string{
 	"Conn.CtcpReply", "Conn.Version", "Conn.Action", "Conn.Topic", "Conn.Mode", "Conn.Away",
 	"Conn.Invite", "Conn.Oper", "Conn.VHost", "Conn.Ping", "Conn.Pong", "Conn.Cap",
 	"Conn.Authenticate",
+	"ParseLine",
 }
 
 // fuel override per loop ("func#k", k-th condition loop of the function, from 0); the
@@ -86,6 +90,8 @@ const (
 	tInt
 	tBool
 	tStrs
+	tMap // map[string]string -> option tagmap (None = nil map)
+	tPtr // result only: pointer to a struct -> option (tuple of its fields)
 	tTuple
 )
 
@@ -101,6 +107,8 @@ func (t gtyp) coq() string {
 		return "bool"
 	case tStrs:
 		return "list bytes"
+	case tMap:
+		return "option tagmap"
 	}
 	return "BAD"
 }
@@ -115,6 +123,8 @@ func (t gtyp) zero() string {
 		return "0"
 	case tBool:
 		return "false"
+	case tMap:
+		return "None"
 	}
 	return "BAD"
 }
@@ -141,6 +151,12 @@ func goType(t types.Type) gtyp {
 			return tInt
 		case types.Bool, types.UntypedBool:
 			return tBool
+		}
+	case *types.Map:
+		k, kok := u.Key().Underlying().(*types.Basic)
+		e, eok := u.Elem().Underlying().(*types.Basic)
+		if kok && eok && k.Kind() == types.String && e.Kind() == types.String {
+			return tMap
 		}
 	case *types.Slice:
 		if b, ok := u.Elem().Underlying().(*types.Basic); ok {
@@ -180,15 +196,15 @@ type nTail struct{ t string }   // a term of the block's own type (recursive cal
 type nM struct{ t string }      // a term of type res _ (forces the block to be monadic)
 type nFuel struct{ body node }  // match fuel with O => Panic | S fuel' => body end
 type nListMatch struct {
-	l, x, l2 string
+	l, x, l2    string
 	nilc, consc node
 }
 type nLoop struct { // let fix name binders {struct s} : T := fbody in pat := call ; body
 	name, binders, sarg, stateT string
-	fbody                      node
-	call                       string
-	pat                        []string
-	body                       node
+	fbody                       node
+	call                        string
+	pat                         []string
+	body                        node
 }
 type nJoin struct { // let k := fun binder => kbody in body
 	name, binder string
@@ -462,6 +478,7 @@ type gsig struct {
 	fieldOut []fieldRef // receiver fields written, sorted by rel
 	emits    bool
 	results  []gtyp
+	resCoq   []string // Coq type of each result
 }
 
 func (s *gsig) resultType() string {
@@ -472,8 +489,8 @@ func (s *gsig) resultType() string {
 	if s.emits {
 		ts = append(ts, "list bytes")
 	}
-	for _, t := range s.results {
-		ts = append(ts, t.coq())
+	for i := range s.results {
+		ts = append(ts, s.resCoq[i])
 	}
 	if len(ts) == 0 {
 		return "unit"
@@ -485,8 +502,18 @@ func (s *gsig) resultType() string {
 // per-function translation state
 
 type gvar struct {
-	name string
-	ty   gtyp
+	name  string
+	ty    gtyp
+	owner types.Object // for a field of a local struct variable: that variable
+	idx   int
+}
+
+// a local variable holding a pointer to a freshly allocated struct (x := &T{...}): one
+// variable per field of a supported type (scalar replacement; x itself never escapes)
+type structVar struct {
+	named  *types.Named
+	fields []*gvar // declaration order, nil for fields of unsupported type
+	byName map[string]*gvar
 }
 
 type ex struct {
@@ -516,21 +543,26 @@ type ctx struct {
 }
 
 type ftrans struct {
-	pi     *pkgInfo
-	info   *types.Info
-	sigs   map[string]*gsig
-	fname  string
-	recv   types.Object
-	vars   map[types.Object]*gvar
-	hid    map[string]*gvar // "$out", ".cfg.SplitLen" (receiver-relative)
-	used   map[string]bool
-	synth  map[*ast.Ident]ex
-	ntmp   int
-	nloop  int
-	ncloop int
-	njoin  int
-	clocks int
-	sig    *gsig
+	pi        *pkgInfo
+	info      *types.Info
+	sigs      map[string]*gsig
+	fname     string
+	recv      types.Object
+	vars      map[types.Object]*gvar
+	hid       map[string]*gvar // "$out", ".cfg.SplitLen" (receiver-relative)
+	structs   map[types.Object]*structVar
+	extra     *[]string // definitions to emit before the function (package-level replacers)
+	emitted   map[string]bool
+	resStruct *types.Named // result type *T
+	fd        *ast.FuncDecl
+	used      map[string]bool
+	synth     map[*ast.Ident]ex
+	ntmp      int
+	nloop     int
+	ncloop    int
+	njoin     int
+	clocks    int
+	sig       *gsig
 }
 
 var coqReserved = func() map[string]bool {
@@ -540,7 +572,7 @@ var coqReserved = func() map[string]bool {
 		res bytes Ok Panic bind len llen beq slice_to slice_from slice byte_at elem_at elems_from has_prefix has_suffix
 		index last_index contains split2 split_byte fields trim trim_space to_upper to_lower join set_elem
 		replace_pairs length app negb andb orb true false nat N Z bool list unit tt O S fst snd nil cons
-		fuel l p out`) {
+		fuel l p out tagmap tags_set go_map_set Some None option`) {
 		m[w] = true
 	}
 	return m
@@ -589,7 +621,7 @@ func (f *ftrans) declare(o types.Object) *gvar {
 	if ty == tBad {
 		failf("variable %s of unsupported type %s", o.Name(), o.Type())
 	}
-	v := &gvar{f.fresh(o.Name()), ty}
+	v := &gvar{name: f.fresh(o.Name()), ty: ty}
 	f.vars[o] = v
 	return v
 }
@@ -710,6 +742,296 @@ func recvTypeName(t types.Type) string {
 }
 
 // ---------------------------------------------------------------------------------------
+// local struct variables, package-level replacers, slice aliasing
+
+// structField: e is x.F with x a local struct variable (x := &T{...})
+func (f *ftrans) structField(e ast.Expr) (*gvar, bool) {
+	se, ok := e.(*ast.SelectorExpr)
+	if !ok {
+		return nil, false
+	}
+	id, ok := se.X.(*ast.Ident)
+	if !ok {
+		return nil, false
+	}
+	sv := f.structs[f.info.Uses[id]]
+	if sv == nil {
+		return nil, false
+	}
+	v := sv.byName[se.Sel.Name]
+	if v == nil {
+		failf("field %s.%s of unsupported type", id.Name, se.Sel.Name)
+	}
+	return v, true
+}
+
+func structFields(named *types.Named) (*types.Struct, bool) {
+	st, ok := named.Underlying().(*types.Struct)
+	return st, ok
+}
+
+// type of a field of a local struct; time.Time fields are not modelled (left out)
+func fieldType(t types.Type) gtyp {
+	if n, ok := t.(*types.Named); ok && n.Obj().Pkg() != nil && n.Obj().Pkg().Path() == "time" && n.Obj().Name() == "Time" {
+		return tBad
+	}
+	return goType(t)
+}
+
+// x := &T{F: e, ...}
+func (f *ftrans) allocStruct(id *ast.Ident, cl *ast.CompositeLit, k func() node) node {
+	named, ok := f.info.TypeOf(cl).(*types.Named)
+	if !ok {
+		failf("composite literal of type %s", f.info.TypeOf(cl))
+	}
+	st, ok := structFields(named)
+	if !ok {
+		failf("composite literal of type %s", named)
+	}
+	obj := f.info.Defs[id]
+	if obj == nil {
+		failf("struct allocation assigned to an existing variable")
+	}
+	sv := &structVar{named: named, byName: map[string]*gvar{}}
+	vals := map[string]ex{}
+	var pre []nBind
+	for _, el := range cl.Elts {
+		kv, ok := el.(*ast.KeyValueExpr)
+		if !ok {
+			failf("unkeyed struct literal")
+		}
+		v := f.expr(kv.Value)
+		pre = append(pre, v.pre...)
+		vals[kv.Key.(*ast.Ident).Name] = v
+	}
+	for i := 0; i < st.NumFields(); i++ {
+		fl := st.Field(i)
+		ty := fieldType(fl.Type())
+		if ty == tBad {
+			if _, set := vals[fl.Name()]; set {
+				failf("field %s of unsupported type is set", fl.Name())
+			}
+			sv.fields = append(sv.fields, nil)
+			continue
+		}
+		v := &gvar{name: f.fresh(id.Name + "_" + fl.Name()), ty: ty, owner: obj, idx: i}
+		sv.fields = append(sv.fields, v)
+		sv.byName[fl.Name()] = v
+	}
+	f.structs[obj] = sv
+	body := k()
+	for i := len(sv.fields) - 1; i >= 0; i-- {
+		v := sv.fields[i]
+		if v == nil {
+			continue
+		}
+		val := v.ty.zero()
+		if e, ok := vals[st.Field(i).Name()]; ok {
+			if e.ty != v.ty {
+				failf("field %s initialised with a %s", st.Field(i).Name(), e.ty.coq())
+			}
+			val = e.t
+		}
+		body = nSeq{pat: []string{v.name}, ty: v.ty.coq(), val: nLeaf{val}, body: body}
+	}
+	return withPre(pre, body)
+}
+
+// the Coq type of a *T result and the tuple returned for a struct variable
+func ptrResultType(named *types.Named) string {
+	st, _ := structFields(named)
+	var ts []string
+	for i := 0; i < st.NumFields(); i++ {
+		if ty := fieldType(st.Field(i).Type()); ty != tBad {
+			ts = append(ts, ty.coq())
+		}
+	}
+	return "option (" + strings.Join(ts, " * ") + ")"
+}
+
+// package-level  var r = strings.NewReplacer(old1, new1, ...)  ->  a list of pairs for
+// LineLib.replace_pairs (generic replacer: at each position the first pair, in argument
+// order, whose old string is a prefix wins; old strings must be non-empty)
+func (f *ftrans) replacer(v *types.Var) string {
+	name := "go_" + f.pi.pkg.Name + "_" + coqIdent(v.Name())
+	if f.emitted[name] {
+		return name
+	}
+	var init ast.Expr
+	for _, file := range f.pi.pkg.Syntax {
+		for _, d := range file.Decls {
+			gd, ok := d.(*ast.GenDecl)
+			if !ok || gd.Tok != token.VAR {
+				continue
+			}
+			for _, sp := range gd.Specs {
+				vs := sp.(*ast.ValueSpec)
+				for i, nm := range vs.Names {
+					if f.info.Defs[nm] == v && i < len(vs.Values) && len(vs.Values) == len(vs.Names) {
+						init = vs.Values[i]
+					}
+				}
+			}
+		}
+	}
+	call, ok := init.(*ast.CallExpr)
+	if !ok {
+		failf("package variable %s is not initialised by a call", v.Name())
+	}
+	se, ok := call.Fun.(*ast.SelectorExpr)
+	pk, _ := se.X.(*ast.Ident)
+	if !ok || pk == nil || se.Sel.Name != "NewReplacer" {
+		failf("package variable %s is not a strings.NewReplacer", v.Name())
+	}
+	if pn, ok := f.info.Uses[pk].(*types.PkgName); !ok || pn.Imported().Path() != "strings" {
+		failf("package variable %s is not a strings.NewReplacer", v.Name())
+	}
+	if len(call.Args)%2 != 0 || call.Ellipsis.IsValid() {
+		failf("strings.NewReplacer with an odd number of arguments")
+	}
+	var pairs []string
+	for i := 0; i < len(call.Args); i += 2 {
+		o, ok1 := f.constArg(call.Args[i])
+		n, ok2 := f.constArg(call.Args[i+1])
+		if !ok1 || !ok2 || o == "" {
+			failf("strings.NewReplacer argument that is not a constant / empty old string")
+		}
+		pairs = append(pairs, "("+bytesLit(o)+", "+bytesLit(n)+")")
+	}
+	*f.extra = append(*f.extra, fmt.Sprintf("(* var %s = strings.NewReplacer(...) *)\nDefinition %s : list (bytes * bytes) :=\n  [%s].\n",
+		v.Name(), name, strings.Join(pairs, "; ")))
+	f.emitted[name] = true
+	return name
+}
+
+// --- slice aliasing.  Slices are translated as VALUES (list bytes).  That is faithful as
+// long as no element is written through one slice and later read through another slice
+// sharing its backing array.  aliasKey identifies a []string variable; aliasClasses unions
+// variables that may share memory (x = y, x = y[a:b], x = append(y, ...), x = f(y));
+// an element assignment x[i] = v is accepted only outside loops, when x does not share
+// memory with a parameter and no OTHER member of its class occurs later in the function.
+type aliasField struct {
+	o types.Object
+	f string
+}
+
+func (f *ftrans) aliasKey(e ast.Expr) interface{} {
+	switch x := e.(type) {
+	case *ast.ParenExpr:
+		return f.aliasKey(x.X)
+	case *ast.Ident:
+		if o := f.info.Uses[x]; o != nil {
+			return o
+		}
+		if o := f.info.Defs[x]; o != nil {
+			return o
+		}
+	case *ast.SelectorExpr:
+		if id, ok := x.X.(*ast.Ident); ok {
+			if o := f.info.Uses[id]; o != nil {
+				return aliasField{o, x.Sel.Name}
+			}
+		}
+	}
+	return nil
+}
+
+func (f *ftrans) aliasSources(e ast.Expr) []interface{} {
+	switch x := e.(type) {
+	case *ast.ParenExpr:
+		return f.aliasSources(x.X)
+	case *ast.Ident, *ast.SelectorExpr:
+		if k := f.aliasKey(x); k != nil {
+			return []interface{}{k}
+		}
+	case *ast.SliceExpr:
+		return f.aliasSources(x.X)
+	case *ast.CallExpr:
+		if id, ok := x.Fun.(*ast.Ident); ok {
+			if b, ok := f.info.Uses[id].(*types.Builtin); ok {
+				if b.Name() == "append" && len(x.Args) > 0 {
+					return f.aliasSources(x.Args[0])
+				}
+				return nil
+			}
+		}
+		if se, ok := x.Fun.(*ast.SelectorExpr); ok {
+			if id, ok := se.X.(*ast.Ident); ok {
+				if pn, ok := f.info.Uses[id].(*types.PkgName); ok && pn.Imported().Path() == "strings" {
+					return nil // strings.* return fresh slices
+				}
+			}
+		}
+		var out []interface{}
+		for _, a := range x.Args {
+			if goType(f.info.TypeOf(a)) == tStrs {
+				out = append(out, f.aliasSources(a)...)
+			}
+		}
+		return out
+	}
+	return nil
+}
+
+func (f *ftrans) elemWriteOK(fd *ast.FuncDecl, target ast.Expr, inLoop bool) {
+	if inLoop {
+		failf("element assignment inside a loop")
+	}
+	parent := map[interface{}]interface{}{}
+	var find func(k interface{}) interface{}
+	find = func(k interface{}) interface{} {
+		if p, ok := parent[k]; ok && p != k {
+			r := find(p)
+			parent[k] = r
+			return r
+		}
+		parent[k] = k
+		return k
+	}
+	union := func(a, b interface{}) { parent[find(a)] = find(b) }
+	ast.Inspect(fd.Body, func(n ast.Node) bool {
+		if as, ok := n.(*ast.AssignStmt); ok && len(as.Lhs) == len(as.Rhs) {
+			for i := range as.Lhs {
+				if goType(f.info.TypeOf(as.Lhs[i])) != tStrs {
+					continue
+				}
+				if lk := f.aliasKey(as.Lhs[i]); lk != nil {
+					for _, src := range f.aliasSources(as.Rhs[i]) {
+						union(lk, src)
+					}
+				}
+			}
+		}
+		return true
+	})
+	tk := f.aliasKey(target)
+	if tk == nil {
+		failf("element assignment to %s", exprText(f.pi, target))
+	}
+	sig := f.info.Defs[fd.Name].(*types.Func).Type().(*types.Signature)
+	for i := 0; i < sig.Params().Len(); i++ {
+		if find(sig.Params().At(i)) == find(tk) {
+			failf("element assignment to memory shared with parameter %s", sig.Params().At(i).Name())
+		}
+	}
+	ast.Inspect(fd.Body, func(n ast.Node) bool {
+		e, ok := n.(ast.Expr)
+		if !ok || n.Pos() <= target.End() {
+			return true
+		}
+		switch e.(type) {
+		case *ast.Ident, *ast.SelectorExpr:
+			if k := f.aliasKey(e); k != nil && k != tk {
+				if _, known := parent[k]; known && find(k) == find(tk) {
+					failf("element assignment to %s while %s may share its memory and is used later", exprText(f.pi, target), exprText(f.pi, e))
+				}
+			}
+		}
+		return true
+	})
+}
+
+// ---------------------------------------------------------------------------------------
 // expressions
 
 func zlit(v constant.Value) string {
@@ -777,6 +1099,9 @@ func (f *ftrans) expr(e ast.Expr) ex {
 			if v, ok := f.hid[p]; ok {
 				return ex{t: v.name, ty: v.ty}
 			}
+		}
+		if v, ok := f.structField(x); ok {
+			return ex{t: v.name, ty: v.ty}
 		}
 		failf("selector %s", exprText(f.pi, x))
 	case *ast.UnaryExpr:
@@ -1047,6 +1372,17 @@ func (f *ftrans) call(x *ast.CallExpr) ex {
 			}
 		}
 		if sel := f.info.Selections[fn]; sel != nil && sel.Kind() == types.MethodVal {
+			// (*strings.Replacer).Replace on a package-level replacer
+			if id, ok := fn.X.(*ast.Ident); ok && fn.Sel.Name == "Replace" && len(x.Args) == 1 {
+				if v, ok := f.info.Uses[id].(*types.Var); ok && v.Parent() == f.pi.pkg.Types.Scope() {
+					name := f.replacer(v)
+					a := f.expr(x.Args[0])
+					if a.ty != tStr {
+						failf("Replace of a non-string")
+					}
+					return ex{pre: a.pre, t: "replace_pairs " + name + " " + arg(a), p: 1, ty: tStr}
+				}
+			}
 			// method on the receiver
 			if callee := f.recvMethod(fn); callee != nil {
 				return f.callSig(callee, x)
@@ -1115,6 +1451,9 @@ func (f *ftrans) builtin(name string, x *ast.CallExpr) ex {
 		}
 		return ex{pre: cat(a.pre, p), t: opd(a) + " ++ [" + strings.Join(ts, "; ") + "]", p: 2, ty: tStrs}
 	case "make":
+		if goType(f.info.TypeOf(x)) == tMap && len(x.Args) == 1 {
+			return ex{t: "Some []", p: 1, ty: tMap} // make(map[string]string)
+		}
 		if goType(f.info.TypeOf(x)) == tStrs && len(x.Args) >= 2 {
 			if tv := f.info.Types[x.Args[1]]; tv.Value != nil && constant.Sign(tv.Value) == 0 {
 				return ex{t: "[]", ty: tStrs} // make([]string, 0[, cap])
@@ -1195,6 +1534,11 @@ func (f *ftrans) stdcall(pkg, name string, x *ast.CallExpr) ex {
 func (f *ftrans) callSig(callee *gsig, x *ast.CallExpr) ex {
 	if len(callee.fieldOut) > 0 || callee.emits {
 		failf("call of %s with effects in expression position", callee.coq)
+	}
+	for _, r := range callee.results {
+		if r == tPtr {
+			failf("call of %s which returns a struct pointer", callee.coq)
+		}
 	}
 	pre, argv := f.callArgs(callee, x)
 	t := f.tmp()
@@ -1295,6 +1639,9 @@ func (f *ftrans) lhs(e ast.Expr, define bool) lhsRef {
 				return lhsRef{v: v}
 			}
 		}
+		if v, ok := f.structField(x); ok {
+			return lhsRef{v: v}
+		}
 	}
 	failf("assignment to %s", exprText(f.pi, e))
 	return lhsRef{}
@@ -1338,6 +1685,35 @@ func isTmpName(s string) bool {
 
 func (f *ftrans) assign(lhsE, rhsE []ast.Expr, tok token.Token, c ctx, k func() node) node {
 	define := tok == token.DEFINE
+	if len(lhsE) == 1 && len(rhsE) == 1 {
+		// x := &T{...}
+		if u, ok := rhsE[0].(*ast.UnaryExpr); ok && u.Op == token.AND && define {
+			if cl, ok := u.X.(*ast.CompositeLit); ok {
+				if id, ok := lhsE[0].(*ast.Ident); ok {
+					return f.allocStruct(id, cl, k)
+				}
+			}
+		}
+		// x[i] = v on a map or a []string (index operands and v first, then the assignment)
+		if ix, ok := lhsE[0].(*ast.IndexExpr); ok && tok == token.ASSIGN {
+			i, v := f.expr(ix.Index), f.expr(rhsE[0])
+			base := f.lhs(ix.X, false)
+			if base.blank {
+				failf("assignment to %s", exprText(f.pi, lhsE[0]))
+			}
+			var m string
+			switch {
+			case base.v.ty == tMap && i.ty == tStr && v.ty == tStr:
+				m = "go_map_set " + base.v.name + " " + arg(i) + " " + arg(v)
+			case base.v.ty == tStrs && i.ty == tInt && v.ty == tStr:
+				f.elemWriteOK(f.fd, ix.X, c.cont != nil)
+				m = "set_elem " + base.v.name + " " + arg(i) + " " + arg(v)
+			default:
+				failf("assignment to %s", exprText(f.pi, lhsE[0]))
+			}
+			return withPre(cat(i.pre, v.pre), nBind{name: base.v.name, mterm: m, body: k()})
+		}
+	}
 	if tok != token.DEFINE && tok != token.ASSIGN {
 		// x op= e
 		if len(lhsE) != 1 || len(rhsE) != 1 {
@@ -1467,7 +1843,8 @@ func (f *ftrans) assigned(nodes ...ast.Node) []*gvar {
 		})
 	}
 	inside := func(o types.Object) bool { return declared[o] }
-	mark := func(e ast.Expr) {
+	var mark func(e ast.Expr)
+	mark = func(e ast.Expr) {
 		switch x := e.(type) {
 		case *ast.Ident:
 			o := f.info.Uses[x]
@@ -1486,7 +1863,13 @@ func (f *ftrans) assigned(nodes ...ast.Node) []*gvar {
 				if v := f.hid[p]; v != nil {
 					set[v] = token.Pos(1<<30) + token.Pos(len(set))
 				}
+			} else if v, ok := f.structField(x); ok && !inside(v.owner) {
+				set[v] = v.owner.Pos() + token.Pos(v.idx)
 			}
+		case *ast.IndexExpr:
+			mark(x.X) // x[i] = v assigns x
+		case *ast.ParenExpr:
+			mark(x.X)
 		}
 	}
 	for _, n := range nodes {
@@ -1938,6 +2321,29 @@ func (f *ftrans) stmt(s ast.Stmt, c ctx, k func() node) node {
 			failf("return of a multi-value call")
 		}
 		for i, e := range x.Results {
+			if f.sig.results[i] == tPtr {
+				// nil or a local struct variable of the result type
+				id, ok := e.(*ast.Ident)
+				if !ok {
+					failf("return of a struct pointer that is neither nil nor a local variable")
+				}
+				if _, isNil := f.info.Uses[id].(*types.Nil); isNil {
+					vals = append(vals, "None")
+					continue
+				}
+				sv := f.structs[f.info.Uses[id]]
+				if sv == nil || sv.named != f.resStruct {
+					failf("return of %s", id.Name)
+				}
+				var fs []string
+				for _, fv := range sv.fields {
+					if fv != nil {
+						fs = append(fs, fv.name)
+					}
+				}
+				vals = append(vals, "Some "+tuple(fs))
+				continue
+			}
 			v := f.expr(e)
 			if v.ty != f.sig.results[i] {
 				failf("return value %d has type %s", i, v.ty.coq())
@@ -1964,6 +2370,7 @@ func (f *ftrans) function(name string, fd *ast.FuncDecl) (text string) {
 	sig := &gsig{coq: coqName}
 	f.sig = sig
 	f.fname = name
+	f.fd = fd
 	obj := f.info.Defs[fd.Name].(*types.Func)
 	gs := obj.Type().(*types.Signature)
 	if fd.Body == nil {
@@ -1988,7 +2395,7 @@ func (f *ftrans) function(name string, fd *ast.FuncDecl) (text string) {
 		sort.Strings(rels)
 		for _, r := range rels {
 			nm := f.fresh(f.hidName(r))
-			f.hid[r] = &gvar{nm, in[r]}
+			f.hid[r] = &gvar{name: nm, ty: in[r]}
 			sig.fieldIn = append(sig.fieldIn, fieldRef{r, in[r]})
 			binders = append(binders, "("+nm+" : "+in[r].coq()+")")
 			if out[r] {
@@ -2009,11 +2416,23 @@ func (f *ftrans) function(name string, fd *ast.FuncDecl) (text string) {
 	}
 	sig.variadic = gs.Variadic()
 	for i := 0; i < gs.Results().Len(); i++ {
-		ty := goType(gs.Results().At(i).Type())
+		rt := gs.Results().At(i).Type()
+		if pt, ok := rt.(*types.Pointer); ok && gs.Results().Len() == 1 {
+			if named, ok := pt.Elem().(*types.Named); ok {
+				if _, ok := structFields(named); ok && gs.Results().At(i).Name() == "" {
+					f.resStruct = named
+					sig.results = append(sig.results, tPtr)
+					sig.resCoq = append(sig.resCoq, ptrResultType(named))
+					continue
+				}
+			}
+		}
+		ty := goType(rt)
 		if ty == tBad {
-			failf("result of unsupported type %s", gs.Results().At(i).Type())
+			failf("result of unsupported type %s", rt)
 		}
 		sig.results = append(sig.results, ty)
+		sig.resCoq = append(sig.resCoq, ty.coq())
 	}
 	// named results are variables initialised to their zero value
 	var inits []*gvar
@@ -2023,7 +2442,7 @@ func (f *ftrans) function(name string, fd *ast.FuncDecl) (text string) {
 		}
 	}
 	if sig.emits {
-		v := &gvar{"out", tStrs}
+		v := &gvar{name: "out", ty: tStrs}
 		f.hid["$out"] = v
 		inits = append(inits, v)
 	}
@@ -2082,6 +2501,9 @@ Definition go_string_of_byte (c : N) : bytes :=
 (* x / y and x % y on int with a divisor that is not a non-zero constant *)
 Definition go_int_quot (a b : Z) : res Z := if b =? 0 then Panic else Ok (Z.quot a b).
 Definition go_int_rem (a b : Z) : res Z := if b =? 0 then Panic else Ok (Z.rem a b).
+(* m[k] = v on a map[string]string (None = nil map: assignment panics) *)
+Definition go_map_set (m : option tagmap) (k v : bytes) : res (option tagmap) :=
+  match m with Some mm => Ok (Some (tags_set mm k v)) | None => Panic end.
 
 `
 
@@ -2090,6 +2512,7 @@ func go2coq(pkgs map[string]*pkgInfo) string {
 	b.WriteString(go2coqPrelude)
 	pi := pkgs["client"]
 	sigs := map[string]*gsig{}
+	emitted := map[string]bool{}
 	for _, name := range go2coqTargets {
 		fd := pi.funcs[name]
 		coqName := "go_client_" + coqIdent(name)
@@ -2108,9 +2531,14 @@ func go2coq(pkgs map[string]*pkgInfo) string {
 					fmt.Fprintf(&b, "(* %s: unsupported: %s *)\nDefinition %s_UNSUPPORTED : unit := tt.\n\n", name, msg, coqName)
 				}
 			}()
+			var extra []string
 			f := &ftrans{pi: pi, info: pi.pkg.TypesInfo, sigs: sigs, vars: map[types.Object]*gvar{},
-				hid: map[string]*gvar{}, used: map[string]bool{}, synth: map[*ast.Ident]ex{}}
+				hid: map[string]*gvar{}, used: map[string]bool{}, synth: map[*ast.Ident]ex{},
+				structs: map[types.Object]*structVar{}, extra: &extra, emitted: emitted}
 			txt := f.function(name, fd)
+			for _, d := range extra {
+				b.WriteString(d + "\n")
+			}
 			pos := pi.pkg.Fset.Position(fd.Pos())
 			fmt.Fprintf(&b, "(* %s — %s *)\n%s\n", name, strings.TrimPrefix(pos.Filename[strings.LastIndex(pos.Filename, "/client/")+1:], "/"), txt)
 		}()
